@@ -83,6 +83,15 @@ def _check(job):
         e = ta.edits(tb)
         walk.refine(e)
         walk.walk(e, ta, tb, opt, fails)
+        # the path TreeNode.diff() takes: the source tree is first deep-copied into Edited<Class> nodes
+        ea = walk.edited(gt.build(a, opt))
+        e2 = ea.edits(tb)
+        walk.refine(e2)
+        f2 = []
+        walk.walk(e2, ea, tb, opt, f2)
+        for f in f2:
+            f['what'] = 'via make_edited() (the diff() path): ' + f['what']
+        fails.extend(f2)
     except Exception as ex:
         fails.append({'what': f"{type(ex).__name__}: {ex}", 'class': f'c10-exception:{type(ex).__name__}'})
     for f in fails:
@@ -100,6 +109,9 @@ def bounded(tier, seed, repo_root):
     jobs = [(a, b, gt.OPTION_COMBOS[i % 9]) for i, (a, b) in enumerate(pairs)]
     base = [{"a": 1, "b": 2, "c": 3}, {"b": 2, "d": 4}, {"a": {"a": 1, "b": 2}, "b": [1, 2]}, {"a": {"b": 2, "c": 1}, "c": [1, 2]},
             [1, 2, 3], [1, 5], [3, 2, 1], [[1, 2], [3]], [[1], [2, 3]], {"k": [1, 2, 3]}, {"k": [1, 5]}, {"x": 1, "a": 1},
+            # values that moved between keys present in both mappings (a cross-key pairing is cheaper than the same-key one)
+            {"alpha": "aaaaaaaaaaaaaaaa", "beta": "zzzzzzzzzzzzzzzz", "g": 1}, {"alpha": "zzzzzzzzzzzzzzzz", "beta": "aaaaaaaaaaaaaaaa", "g": 1},
+            {"n": {"l": [1, 2, 3, 4, 5, 6], "r": "rrrrrrrrrrrr"}}, {"n": {"l": "rrrrrrrrrrrr", "r": [1, 2, 3, 4, 5, 6]}},
             # mixed integer / string keys as YAML allows (LeafNode.__lt__ falls back to comparing text)
             {9: "n", 10: "t", "5": "aaaaaaaaaaaa"}, {9: "n", 10: "t", "5": "zzzzzzzzzzzz", "6": "aaaaaaaaaaaa"},
             {1: "a", "1x": "b", 20: "c", "3": "d"}, {"3": "e", 20: "c", 100: "q", "1x": "bb"}]
